@@ -182,6 +182,43 @@ def run_regrid(ctx, n):
             ctx.sample({"input": inp, "crossings": got[:6]})
 
 
+def run_interleaved(ctx, n):
+    """two records regridded side by side (`zip(regrid(a), regrid(b))`: two wells on one logger clock compared level by
+    level): `regrid` is a generator, and what it yields must not depend on another one being consumed in between"""
+    common.import_spowtd()
+    import itertools
+    import spowtd.regrid as rg
+    ob = "regrid consumed in step with another regrid = regrid consumed alone"
+    for _ in range(n):
+        step, xa, ya = gen_series(ctx.rng)
+        _s, xb, yb = gen_series(ctx.rng)
+        try:
+            alone_a = [(int(k), float(x)) for k, x in rg.regrid(np.array(xa), np.array(ya), step)]
+            alone_b = [(int(k), float(x)) for k, x in rg.regrid(np.array(xb), np.array(yb), step)]
+        except Exception:  # noqa  (judged by run_regrid)
+            continue
+        ga, gb = rg.regrid(np.array(xa), np.array(ya), step), rg.regrid(np.array(xb), np.array(yb), step)
+        ta, tb, err = [], [], None
+        try:
+            for pa, pb in itertools.zip_longest(ga, gb):
+                if pa is not None:
+                    ta.append((int(pa[0]), float(pa[1])))
+                if pb is not None:
+                    tb.append((int(pb[0]), float(pb[1])))
+        except Exception as e:  # noqa
+            err = "%s: %s" % (type(e).__name__, e)
+        ctx.case(("interleaved", step, tuple(xa), tuple(ya), tuple(xb), tuple(yb)), bool(alone_a and alone_b))
+        ok = err is None and ta == alone_a and tb == alone_b
+        ctx.obligation(ob, ok)
+        if not ok:
+            ctx.violation("impl-violation", "c12Holds", {
+                "input": {"function": "regrid.regrid, two generators consumed alternately", "step": step,
+                          "a": {"x": xa, "y": ya}, "b": {"x": xb, "y": yb}},
+                "impl": err or {"a": ta[:6], "b": tb[:6]}, "oracle": {"name": "c12Holds", "result": False, "witness": {
+                    "why": "the crossings reported for a series change when another series is regridded at the same time",
+                    "alone": {"a": alone_a[:6], "b": alone_b[:6]}}}})
+
+
 def run_headmap(ctx, n):
     """build_head_mapping: mean of repeated crossings of one level within a series"""
     common.import_spowtd()
@@ -221,9 +258,11 @@ def run(ctx):
     if ctx.tier == "quick":
         run_regrid(ctx, 1500)
         run_headmap(ctx, 200)
+        run_interleaved(ctx, 60)
     else:
         run_regrid(ctx, 40000)
         run_headmap(ctx, 4000)
+        run_interleaved(ctx, 1500)
 
 
 def replay(ctx, doc):
